@@ -22,6 +22,9 @@ ASSUMPTIONS = ['CPython str semantics', 'the model driver is the compiled form o
                'bracket, does not end with a backslash, has no % on its last line, does not contain \\end{name}',
                'user names: letters, digits, *, -, inner blanks (one text token); placements: top level and bodies of '
                'named environments (the reader passes skip_envs nowhere else)']
+LEAN_TARGETS = LEAN_TARGETS + ['TexSoupProofs.Properties.TableSpec']
+# entries of the generated tables that the property's statement names (they stop compiling when a table edit drops them)
+THEOREMS = THEOREMS + ['TexSoup.TableSpec.' + n for n in ['builtin_verbatim_names', 'verbatim_and_math_disjoint']]
 
 _CACHE = {}
 
@@ -57,6 +60,16 @@ def user_names(rng, n):
     return out
 
 
+def special_user_names(rng):
+    """user-chosen names that collide with other tables of the reader: named math environments (their bodies are
+    kept verbatim all the same when the caller asks for it) and neighbours of the built-in names. Only used with the
+    option given (without it a math environment is not an ordinary environment)."""
+    return rng.sample(list(G.MATH_ENVS), 3) + rng.sample(['verbatimx', 'listings', 'Verbatim*', 'lstlistin', 'verb'], 2)
+
+
+SKIP_ONLY = set(G.MATH_ENVS)
+
+
 def build(name, ci, body, mode):
     """mode: 'skip' (name is built-in or passed via skip_envs) | 'noopt' (user name, option not given)."""
     label, pre, post = CONTEXTS[ci]
@@ -85,7 +98,7 @@ def _gen_random(rng, i, job):
         body = ''.join(rng.choice(PIECES) for _ in range(rng.randint(8, 20)))
         if not G.verb_body_ok(body, name):
             body = G.verb_body(rng, name)
-    mode = 'noopt' if (name not in BUILTIN and rng.random() < 0.3) else 'skip'
+    mode = 'noopt' if (name not in BUILTIN and name not in SKIP_ONLY and rng.random() < 0.3) else 'skip'
     src, spec = build(name, rng.randrange(len(CONTEXTS)), body, mode)
     return src, None, spec
 
@@ -285,7 +298,7 @@ def _enum_items(ctx, names):
 
 
 def _all_jobs(ctx, model, scale=1):
-    names = user_names(ctx.rng('names'), 10)
+    names = user_names(ctx.rng('names'), 10) + special_user_names(ctx.rng('names/special'))
     items = _enum_items(ctx, names)
     jobs = []
     per = ctx.pick(500, 1500)
